@@ -411,7 +411,7 @@ pub static DEADLINE: Mutex<Option<Instant>> = Mutex::new(None);
 pub fn set_deadline(d: Duration) {
     *DEADLINE.lock().unwrap() = Some(Instant::now() + d);
 }
-fn past_deadline() -> bool {
+pub fn past_deadline() -> bool {
     DEADLINE.lock().unwrap().map_or(false, |d| Instant::now() > d)
 }
 
